@@ -1,9 +1,8 @@
-//go:build !rootmod
-
 package codec
 
 import (
 	"fmt"
+	"reflect"
 	"sort"
 	"strings"
 
@@ -23,14 +22,31 @@ func (b *Bridge) DecodeQueryFull(rec string, q string) string {
 			outcome = "err other"
 			return
 		}
-		req := restlicodec.NewRequiredFields()
+		var required []string
 		for _, f := range b.Env.AllFields(rec) {
 			if !f.Optional && f.Default == nil {
-				req = req.Add(f.Name)
+				required = append(required, f.Name)
 			}
 		}
-		p := b.NewNamed(rec)
-		err = qr.ReadRecord(req, func(reader restlicodec.Reader, field string) error {
+		var p reflect.Value
+		read := VRec()
+		if !b.Interp {
+			p = b.NewNamed(rec)
+		}
+		err = qr.ReadRecord(mkRequired(required), func(reader restlicodec.Reader, field string) error {
+			if b.Interp {
+				// the generated UnmarshalField, by interpretation (no bindings linked in)
+				for _, f := range b.Env.AllFields(rec) {
+					if f.Name == field {
+						v, err := b.interpUnmarshal(reader, f.Ty)
+						if err == nil {
+							read.KVs = setKV(read.KVs, field, v)
+						}
+						return err
+					}
+				}
+				return reader.Skip()
+			}
 			found, err := p.Interface().(fieldUnmarshaler).UnmarshalField(reader, field)
 			if err == nil && !found {
 				err = reader.Skip()
@@ -47,7 +63,10 @@ func (b *Bridge) DecodeQueryFull(rec string, q string) string {
 			}
 			return
 		}
-		got := b.Get(p.Elem(), R(rec))
+		got := read
+		if !b.Interp {
+			got = b.Get(p.Elem(), R(rec))
+		}
 		out := VRec()
 		for _, kv := range got.KVs {
 			if _, ok := qr[kv.K]; ok {
@@ -110,19 +129,27 @@ func (x *runner) runQueryDecK(n int) {
 	r := x.r
 	for _, t := range x.recordTypes() {
 		rec := t.Ref
-		if _, ok := x.b.NewNamed(rec).Interface().(fieldsMarshaler); !ok {
+		if x.env.Find(rec).Kind != "record" {
 			continue
+		}
+		if !x.b.Interp {
+			if _, ok := x.b.NewNamed(rec).Interface().(fieldsMarshaler); !ok {
+				continue
+			}
 		}
 		for i := 0; i < n; i++ {
 			v := x.env.GenValue(x.rng, t, 2, GenOpts{OptPct: 60})
-			_, data := x.b.EncodeQuery(rec, v)
-			if data == nil {
-				continue
+			q := ""
+			if !x.b.Interp {
+				_, data := x.b.EncodeQuery(rec, v)
+				if data == nil {
+					continue
+				}
+				q = string(data)
 			}
-			q := string(data)
 			var wantMissing []string
 			judged := false
-			if ref := x.env.RefDoc(t, v); ref != nil && x.rng.Intn(2) == 0 {
+			if ref := x.env.RefDoc(t, v); ref != nil && (x.b.Interp || x.rng.Intn(2) == 0) {
 				// the same parameters with required fields deleted at any depth inside their values
 				doc := ref.clone()
 				x.env.dropFields(t, doc, x.rng, []int{10, 25, 50}[x.rng.Intn(3)], false)
